@@ -21,26 +21,31 @@ import (
 // Obj is one caller-visible object with its flat state snapshot before and
 // after the call.
 type Obj struct {
-	Name      string    `json:"name"`
-	Role      string    `json:"role"` // "input" | "insitu" | "output-arg"
-	Before    []float64 `json:"-"`
-	After     []float64 `json:"-"`
-	BeforeHex []string  `json:"before"`
-	AfterHex  []string  `json:"after"`
+	Name         string    `json:"name"`
+	Role         string    `json:"role"` // "input" | "insitu" | "output-arg"
+	Before       []float64 `json:"-"`    // observable state
+	After        []float64 `json:"-"`
+	RepBefore    []float64 `json:"-"` // representation: private sparse map / index keys, iterator sequence (empty for dense objects)
+	RepAfter     []float64 `json:"-"`
+	BeforeHex    []string  `json:"before"`
+	AfterHex     []string  `json:"after"`
+	RepBeforeHex []string  `json:"rep_before"`
+	RepAfterHex  []string  `json:"rep_after"`
 }
 
 // Case is one executed entry point call.
 type Case struct {
-	Entry    string
-	ID       int
-	Opts     string
-	OptMask  int
-	Modelled bool
-	Outcome  string // "ok" | "error" | "panic"
-	Msg      string // error / panic text (diagnostics only, not part of the Coq term)
-	Objs     []Obj
-	Spec     json.RawMessage
-	Changed  []string
+	Entry      string
+	ID         int
+	Opts       string
+	OptMask    int
+	Modelled   bool
+	Outcome    string // "ok" | "error" | "panic"
+	Msg        string // error / panic text (diagnostics only, not part of the Coq term)
+	Objs       []Obj
+	Spec       json.RawMessage
+	Changed    []string // input objects whose OBSERVABLE state changed
+	RepChanged []string // input objects whose representation changed while the observable state did not
 }
 
 // ToJSON fills the hex fields of all objects and marshals the case.
@@ -48,6 +53,8 @@ func (c Case) ToJSON() ([]byte, error) {
 	for i := range c.Objs {
 		c.Objs[i].BeforeHex = hexList(c.Objs[i].Before)
 		c.Objs[i].AfterHex = hexList(c.Objs[i].After)
+		c.Objs[i].RepBeforeHex = hexList(c.Objs[i].RepBefore)
+		c.Objs[i].RepAfterHex = hexList(c.Objs[i].RepAfter)
 	}
 	return json.Marshal(c)
 }
@@ -228,6 +235,7 @@ func runOne(e *entryDef, rng *common.Rng, mask int) (Case, bool) {
 	spec := e.gen(rng, mask)
 	spec.ID = e.id
 	spec.Mask = mask
+	touchSparse(spec, rng)
 	c, err := execute(spec)
 	if err != nil {
 		return Case{}, false
@@ -280,8 +288,23 @@ func sameBits(a, b []float64) bool {
 // fewer options, smaller dimension, simpler values.  Candidates are produced
 // by modifying the spec and replaying it.
 func Shrink(c Case) Case {
+	// shrink on the observable changes; when there are none, on the
+	// representation changes
+	useRep := false
 	if len(c.Changed) == 0 {
-		return c
+		if len(c.RepChanged) == 0 {
+			return c
+		}
+		useRep = true
+	}
+	changedOf := func(x Case) []string {
+		if useRep {
+			if len(x.Changed) > 0 {
+				return nil
+			}
+			return x.RepChanged
+		}
+		return x.Changed
 	}
 	best := c
 	var bs Spec
@@ -294,7 +317,7 @@ func Shrink(c Case) Case {
 	}
 	// the shrunk case must keep the outcome and the first changed object of
 	// the original, and must not introduce additional non-finite values in it
-	target := c.Changed[0]
+	target := changedOf(c)[0]
 	nonFinite := func(cs Case) int {
 		k := 0
 		for _, o := range cs.Objs {
@@ -322,7 +345,7 @@ func Shrink(c Case) Case {
 			return false
 		}
 		keeps := false
-		for _, n := range nc.Changed {
+		for _, n := range changedOf(nc) {
 			keeps = keeps || n == target
 		}
 		if !keeps || nonFinite(nc) > nf0 {
@@ -423,5 +446,19 @@ func genWithDim(e *entryDef, r *common.Rng, mask, n, kind int) (s *Spec) {
 	s = e.gen(r, mask)
 	s.ID = e.id
 	s.Mask = mask
+	touchSparse(s, r)
 	return s
+}
+
+// sparse main input matrices: half of the time the caller has touched one
+// (zero) entry, which is then an explicitly stored zero
+func touchSparse(s *Spec, r *common.Rng) {
+	if s.Kind != 2 {
+		return
+	}
+	t := -1
+	if r.Bool() && s.N*s.M > 0 {
+		t = r.Intn(s.N * s.M)
+	}
+	s.setInts("mtouch", t)
 }
